@@ -30,7 +30,9 @@ func (core *JApiCore) buildRule(d *directive.Directive) *jerr.JApiError {
 	}
 
 	if !d.BodyCoords.IsSet() {
-		return nil
+		// An ENUM whose line is ended by the end of the file never reaches the
+		// scanner's check for a missing body.
+		return d.KeywordError(jerr.EmptyBody)
 	}
 
 	name := d.NamedParameter("Name")
